@@ -76,7 +76,8 @@ Theorem C19_equiv_obs : forall (M : machine), (forall st k x, fits (wrap_of x) (
 Proof. exact equiv_obs. Qed.
 Print Assumptions C19_equiv_obs.
 
-(* ---- how the test is left on a failure: crashOnFailure and the failure reporters (the extended observation: h_crash) *)
+(* ---- how a test is left on a failure: crashOnFailure and the failure reporters (the extended observation: per test of the scenario
+   -- ONewTest separates tests that share the mock state -- the op it was left at, the text, the number of runs of the crash hook) *)
 (* the source says what the reporter model assumes: the C reporter is the C++ reporter but for the terminator it leaves the test with,
    both run UT_CRASH() iff the flag failTest hands over is set; MockSupport assigns activeReporter_ only in setActiveReporter (from
    mock()), reads it in crashOnFailure, createActualCall and failTest (after clear()); clear() mentions no reporter *)
@@ -90,15 +91,15 @@ Proof. exact layers_mirror. Qed.
 Print Assumptions C19_layers_mirror.
 
 (* for ANY two layers that do the same up to the names of the two reporter objects and any machine (which also says WHO raises each
-   failure: an actual call object, the mock support itself, a plain CHECK), both interfaces leave the test at the same op with the
-   same text and the same number of runs of the crash hook, and show the same values and output bytes *)
+   failure: an actual call object, the mock support itself, a plain CHECK), both interfaces leave every test of the scenario at the
+   same op with the same text and the same number of runs of the crash hook, and show the same values and output bytes *)
 Theorem C19_equiv_obs_mirror_layers : forall Lc Lx, mirror Lc Lx -> forall (M : machine),
   (forall st k x, fits (wrap_of x) (r_val (snd (mexec M st k x))) = true) -> forall ops, spec ops (run_layers Lc Lx M ops) = true.
 Proof. exact equiv_obs_layers. Qed.
 Print Assumptions C19_equiv_obs_mirror_layers.
 
 Theorem C19_crash_equiv : forall (M : machine), (forall st k x, fits (wrap_of x) (r_val (snd (mexec M st k x))) = true) -> forall ops,
-  h_fail (o_c (run_with M ops)) = h_fail (o_x (run_with M ops)) /\ h_crash (o_c (run_with M ops)) = h_crash (o_x (run_with M ops)).
+  h_tests (o_c (run_with M ops)) = h_tests (o_x (run_with M ops)).
 Proof. exact crash_equiv. Qed.
 Print Assumptions C19_crash_equiv.
 
